@@ -20,12 +20,11 @@ _real_stat = os.stat
 _real_access = os.access
 
 
-def _fake_stat(is_dir, size, unreadable=False):
+def _fake_stat(is_dir, size, unreadable=False, mtime=1600000000):
     import stat as st_
     mode = (st_.S_IFDIR | 0o755) if is_dir else \
         (st_.S_IFREG | (0o000 if unreadable else 0o644))
-    return os.stat_result((mode, 1, 1, 1, 0, 0, size, 1600000000, 1600000000,
-                           1600000000))
+    return os.stat_result((mode, 1, 1, 1, 0, 0, size, mtime, mtime, mtime))
 
 
 class Abort(BaseException):
@@ -188,9 +187,16 @@ class SimFS:
         self.world = world
         self.files = files          # path -> {text, enc, fault?}
         self.opens = {}             # path -> count
+        self.versions = {}          # path -> how often it was rewritten
         self.total = 0
         self.budget = budget
         self.written = {}
+
+    def update(self, files):
+        """Files rewritten on the (simulated) disk: new content, new mtime."""
+        for path, spec in files.items():
+            self.versions[path] = self.versions.get(path, 0) + 1
+            self.files[path] = spec
 
     def _virtual(self, path):
         """The plan-relative name of a path served from memory, else None."""
@@ -227,7 +233,8 @@ class SimFS:
             return _fake_stat(True, 0)
         from sim import docgen
         return _fake_stat(False, len(docgen.file_text(spec).encode(
-            spec.get('enc', 'utf-8'))), unreadable=(kind == 'EACCES'))
+            spec.get('enc', 'utf-8'))), unreadable=(kind == 'EACCES'),
+            mtime=1600000000 + 60 * self.versions.get(name, 0))
 
     def access(self, path, mode, *a, **kw):
         name = self._virtual(path)
@@ -917,7 +924,7 @@ class SimNet:
         req = self.requests[self.next]
         if req.get('files'):
             # files rewritten on disk before this request arrives
-            self.world.fs.files.update(req['files'])
+            self.world.fs.update(req['files'])
         conn = _Conn(self, self.next, build_request_bytes(req))
         self.conns.append(conn)
         fault = (req.get('fault') or {}).get('kind')
